@@ -171,6 +171,60 @@ Proof.
     apply nth_error_None in Er. lia.
 Qed.
 
+(* ---- shared references in the inputs ----
+   The list of input references may contain the SAME object several times (one Pose instance at several positions of
+   cf_poses or under several base-station ids), and different objects may share an array (one ndarray used as the
+   translation of two Pose instances): [wf] and the hypotheses above allow both.  The per-entry shallow copy gives every
+   POSITION its own fresh object, so a repeated input is scaled once per position, never twice. *)
+Lemma scale_system_h_fresh : forall (h h' : heap) os cs,
+  Forall (fun o => o < length (objs h)) os ->
+  scale_system_h mul h os = Some (h', cs) -> cs = seq (length (objs h)) (length os).
+Proof.
+  intros h h' os cs Hos H. unfold scale_system_h in H.
+  destruct (copy_all h os) as [[h1 cs1]|] eqn:Ec; [|discriminate].
+  destruct (scale_all mul h1 cs1) as [h2|] eqn:Es; [|discriminate]. injection H as <- <-.
+  destruct (copy_all_spec _ _ _ _ Hos Ec) as (_ & Hcs & _). exact Hcs.
+Qed.
+
+Theorem scale_system_h_shared : forall (h h' : heap) os cs,
+  wf h -> Forall (fun o => o < length (objs h)) os ->
+  scale_system_h mul h os = Some (h', cs) ->
+  NoDup cs /\
+  (forall i j o, i <> j -> nth_error os i = Some o -> nth_error os j = Some o ->
+     exists ci cj, nth_error cs i = Some ci /\ nth_error cs j = Some cj /\ ci <> cj /\
+       deref h' ci = option_map (fun rt => (fst rt, mul (snd rt))) (deref h o) /\
+       deref h' cj = option_map (fun rt => (fst rt, mul (snd rt))) (deref h o)) /\
+  (* two different inputs sharing their translation array: both copies are scaled from the same old value, and the
+     shared array itself is untouched *)
+  (forall i j oi oj obi obj_, nth_error os i = Some oi -> nth_error os j = Some oj ->
+     nth_error (objs h) oi = Some obi -> nth_error (objs h) oj = Some obj_ -> f_t obi = f_t obj_ ->
+     nth_error (arrs h') (f_t obi) = nth_error (arrs h) (f_t obi) /\
+     forall ci cj, nth_error cs i = Some ci -> nth_error cs j = Some cj ->
+       option_map snd (deref h' ci) = option_map snd (deref h' cj) \/ deref h oi = None \/ deref h oj = None).
+Proof.
+  intros h h' os cs Hw Hos H.
+  pose proof (scale_system_h_fresh _ _ _ _ Hos H) as Hcs.
+  destruct (scale_system_h_spec _ _ _ _ Hw Hos H) as (Hpres & Hlen & Hge & Hold & Hden).
+  split; [rewrite Hcs; apply seq_NoDup|]. split.
+  - intros i j o Hij Hi Hj.
+    assert (Li : i < length os) by (eapply nth_error_lt; exact Hi).
+    assert (Lj : j < length os) by (eapply nth_error_lt; exact Hj).
+    exists (length (objs h) + i), (length (objs h) + j).
+    assert (Ci : nth_error cs i = Some (length (objs h) + i)).
+    { rewrite Hcs. rewrite (nth_error_nth' _ 0) by (rewrite seq_length; exact Li). rewrite seq_nth by exact Li. reflexivity. }
+    assert (Cj : nth_error cs j = Some (length (objs h) + j)).
+    { rewrite Hcs. rewrite (nth_error_nth' _ 0) by (rewrite seq_length; exact Lj). rewrite seq_nth by exact Lj. reflexivity. }
+    split; [exact Ci|]. split; [exact Cj|]. split; [lia|].
+    split; [exact (Hden _ _ _ Hi Ci) | exact (Hden _ _ _ Hj Cj)].
+  - intros i j oi oj obi obj_ Hi Hj Eoi Eoj Eshare. split.
+    + destruct Hpres as [Pa _]. apply Pa. exact (proj2 (wf_lookup _ _ _ Hw Eoi)).
+    + intros ci cj Ci Cj. rewrite (Hden _ _ _ Hi Ci), (Hden _ _ _ Hj Cj).
+      unfold deref. rewrite Eoi, Eoj, <- Eshare.
+      destruct (nth_error (arrs h) (f_R obi)) as [ri|]; [|right; left; reflexivity].
+      destruct (nth_error (arrs h) (f_R obj_)) as [rj|]; [|right; right; destruct (nth_error (arrs h) (f_t obi)); reflexivity].
+      destruct (nth_error (arrs h) (f_t obi)) as [t|]; [left; reflexivity | right; left; reflexivity].
+Qed.
+
 (* ---- Pose(R_matrix=R, t_vec=t) ---- *)
 Theorem new_pose_spec : forall (h : heap) r t, 
   let '(h', o) := new_pose h r t in
